@@ -348,8 +348,9 @@ fn cmd_check(a: Args) -> i32
         "assumptions": [
             "Bevy's command semantics: a system's commands apply in order, each fully, before the next",
             "single-threaded executor of the pinned feature set (no multi_threaded feature)",
-            "generator bounds of DESIGN 2.1 (no duplicate live registration of one reactor for one trigger; ref-counted registration at most once per system)",
-            "ambiguity rulings A1-A5 of DESIGN 4.3 (both behaviours accepted)"
+            "generator bounds of DESIGN 2.1 (no duplicate live type-wide / despawn registration of one reactor across calls; ref-counted registration at most once per system; same-key recursion of the syscall family only as documented)",
+            "ambiguity rulings A1-A6 of DESIGN 4.3 (both behaviours accepted where the properties are silent; where collections happen is the implementation's choice)",
+            "the cfg(ukoehb_bevy_cobweb_verif) hooks report runner events and internal table sizes faithfully; the harness's own remove hook reports despawns of slot entities"
         ],
         "wall_s": wall,
         "violations": violations,
